@@ -354,6 +354,18 @@ func c18Run(c *vlib.Ctx, idx int, sc c18Scenario) {
 	release()
 	<-lifeDone
 	waitQuiet(s, 500*time.Millisecond, 10*time.Second)
+	// a cleanup of unowned tasks after the reconciliation answers were processed: the tasks of the live
+	// environment are still owned (the answers carry no executor id) and must not be touched by it
+	{
+		ctx, cancel := coresim.Ctx(60 * time.Second)
+		_, cerr := s.Client.CleanupTasks(ctx, &pb.CleanupTasksRequest{})
+		cancel()
+		mu.Lock()
+		obs.Steps = append(obs.Steps, fmt.Sprintf("CleanupTasks err=%q", truncate(grpcMsg(cerr), 120)))
+		mu.Unlock()
+		c.Count("cleanups_after_reconnection", 1)
+		waitQuiet(s, 300*time.Millisecond, 10*time.Second)
+	}
 	mu.Lock()
 	eid = envID
 	mu.Unlock()
